@@ -52,7 +52,7 @@ INSIDER = ['correct', 'wrong_psk', 'wrong_rsa_key', 'wrong_nonce', 'own_nonce_tw
            'other_sk_p', 'other_id_in_prf', 'reflected', 'earlier_session', 'earlier_session_same_daemons', 'method_swap', 'id_type', 'id_data', 'truncated',
            'extended', 'zero', 'empty', 'as_create_child', 'no_auth', 'no_id']
 CRED = ['wrong_psk', 'wrong_id', 'wrong_id_type', 'expects_psk_gets_rsa', 'expects_rsa_gets_psk', 'responder_wrong_psk',
-        'responder_wrong_id']
+        'responder_wrong_id', 'responder_id_other_case', 'id_other_case']
 
 
 def rsa_sign(priv_pem, data):
@@ -312,6 +312,13 @@ def apply_cred_fault(s, cfg, fault):
         ca['conn']['peer_auth'] = {'id': cfg['id_b'], 'psk': 'N0pe-' + cfg['psk_b'][::-1]}
     elif fault == 'responder_wrong_id':
         ca['conn']['peer_auth'] = dict(ca['conn']['peer_auth'], id='mallory@example.org')
+    elif fault == 'responder_id_other_case':
+        # the responder presents the configured name in other letter case (identities are octet strings, RFC 7296 3.5)
+        ca['conn']['peer_auth'] = dict(ca['conn']['peer_auth'], id='bob@example.org')
+        cb['conn']['my_auth'] = dict(cb['conn']['my_auth'], id='Bob@Example.ORG')
+    elif fault == 'id_other_case':
+        cb['conn']['peer_auth'] = dict(cb['conn']['peer_auth'], id='gw-1.example.org')
+        ca['conn']['my_auth'] = dict(ca['conn']['my_auth'], id='GW-1.Example.org')
     for ep, d in ((s.a, ca), (s.b, cb)):
         ep.conf_dict = d
         ep.restart()
